@@ -1,15 +1,18 @@
 #!/bin/bash
-# usage: trymutant.sh <patch.diff> [PROP ...]   -- apply a seeded change to /repo, run the quick checks, undo it
+# usage: trymutant.sh <patch.diff> [PROP ...]
+# Applies a seeded change to a scratch worktree of /repo's HEAD (never to /repo itself), runs the
+# quick checks against it through a shadow build of the simulator, removes the worktree.
 P="$1"; shift
 PROPS="${@:-C01 C05 C06 C07 C08 C09 C10 C11 C12 C13 C14 C15 C16 C17 C19 C20}"
-cd /repo || exit 2
-git diff --quiet || { echo "/repo has local changes"; exit 2; }
-git apply "$P" || { echo "patch does not apply"; exit 2; }
+WT=${WT:-/tmp/wt-try}
+git -C /repo worktree remove --force $WT >/dev/null 2>&1
+git -C /repo worktree add -q --detach $WT HEAD || exit 2
+( cd $WT && git apply "$P" ) || { echo "patch does not apply"; git -C /repo worktree remove --force $WT; exit 2; }
 cd /verif
 for p in $PROPS; do
-  out=$(VERIF_TIER=${TIER:-quick} ./check.sh $p ${TIER:-quick} 2>&1); rc=$?
+  out=$(VERIF_REPO=$WT ./check.sh $p ${TIER:-quick} 2>&1); rc=$?
   v=$(echo "$out" | grep -E "^violation" | head -3 | cut -c1-260)
   echo "== $p exit=$rc"; [ -n "$v" ] && echo "$v"
   [ $rc -eq 2 ] && echo "$out" | grep -E "HARNESS|error" | head -5
 done
-git -C /repo checkout -- .
+git -C /repo worktree remove --force $WT
